@@ -12,6 +12,15 @@ theorem pres_dlSt {s s' : St} {a : Act} (hI : Inv s) (h : step .repaired s a = s
   | fire t0 =>
     simp only [step] at h
     (repeat' (split at h)) <;> (try cases h) <;> (simp only [St.setPc, St.setObj]; (have i_dlSt := hI.dlSt; have i_lockA := hI.lockA; have i_stObj := hI.stObj; grind [dlObj, holdsStore, upd]))
+  | corrupt d =>
+    simp only [step] at h
+    (repeat' (split at h)) <;> (try cases h) <;> (simp only []; (have i_dlSt := hI.dlSt; have i_lockA := hI.lockA; have i_stObj := hI.stObj; grind [dlObj, holdsStore, upd]))
+  | block d =>
+    simp only [step] at h
+    (repeat' (split at h)) <;> (try cases h) <;> (simp only []; (have i_dlSt := hI.dlSt; have i_lockA := hI.lockA; have i_stObj := hI.stObj; grind [dlObj, holdsStore, upd]))
+  | repair d =>
+    simp only [step] at h
+    (repeat' (split at h)) <;> (try cases h) <;> (simp only []; (have i_dlSt := hI.dlSt; have i_lockA := hI.lockA; have i_stObj := hI.stObj; grind [dlObj, holdsStore, upd]))
   | run t0 =>
     simp only [step] at h
     split at h
